@@ -101,6 +101,13 @@ def generate(R, tier):
         yield {"stream": "http", "http": bytes(b).hex()}
     for m in H.line_shapes():
         yield {"stream": "http-line-shapes", "http": m.hex()}
+    # messages that MATCH a record naming a software, with every kind of User-Agent / Server value (absent, empty, blank, other)
+    for eol in (b"\r\n", b"\n"):
+        for ua in (None, b"", b" ", b"\t", b"curl/7.81", b"CURL", b"x", b"\xff"):
+            hs = [b"Host: a"] + ([b"User-Agent:" + (b" " + ua if ua else ua)] if ua is not None else []) + [b"Accept: */*"]
+            yield {"stream": "http-matching", "http": (b"GET / HTTP/1.1" + eol + eol.join(hs) + eol + eol).hex()}
+            sv = [b"Date: x"] + ([b"Server:" + (b" " + ua if ua else ua)] if ua is not None else [])
+            yield {"stream": "http-matching", "http": (b"HTTP/1.1 200 OK" + eol + eol.join(sv) + eol + eol).hex()}
 
 
 def model_line(c):
